@@ -177,19 +177,31 @@ where
 
         let mut stream = blocks.try_buffered(self.worker_count.get());
 
-        self.block = match stream.try_next().await? {
-            Some(mut block) => {
-                let (cpos, upos) = pos.into();
+        let (cpos, upos) = pos.into();
 
-                self.position = cpos + block.size();
+        self.position = cpos;
 
-                block.set_position(cpos);
-                block.data_mut().set_position(usize::from(upos));
+        // Like the blocking reader, skip empty blocks and, when there is no data at or after this
+        // position, leave an empty block at the end.
+        self.block = loop {
+            match stream.try_next().await? {
+                Some(mut block) => {
+                    block.set_position(self.position);
+                    self.position += block.size();
 
-                block
+                    if block.data().len() > 0 {
+                        break block;
+                    }
+                }
+                None => {
+                    let mut block = Block::default();
+                    block.set_position(self.position);
+                    break block;
+                }
             }
-            None => Block::default(),
         };
+
+        self.block.data_mut().set_position(usize::from(upos));
 
         self.stream.replace(stream);
 
@@ -219,6 +231,8 @@ where
                         }
                     }
 
+                    self.position = pos.compressed();
+
                     let stream = blocks.try_buffered(self.worker_count.get());
                     Some(SeekState::Finish(stream))
                 }
@@ -231,20 +245,33 @@ where
                         }
                     };
 
-                    self.block = match item {
+                    // Like the blocking reader, skip empty blocks and, when there is no data at or
+                    // after this position, leave an empty block at the end.
+                    let mut block = match item {
                         Some(Ok(mut block)) => {
-                            let (cpos, upos) = pos.into();
+                            block.set_position(self.position);
+                            self.position += block.size();
 
-                            self.position = cpos + block.size();
-
-                            block.set_position(cpos);
-                            block.data_mut().set_position(usize::from(upos));
+                            if block.data().len() == 0 {
+                                self.seek_state = Some(SeekState::Finish(stream));
+                                continue;
+                            }
 
                             block
                         }
                         Some(Err(e)) => return Poll::Ready(Err(e)),
-                        None => Block::default(),
+                        None => {
+                            let mut block = Block::default();
+                            block.set_position(self.position);
+                            block
+                        }
                     };
+
+                    block
+                        .data_mut()
+                        .set_position(usize::from(pos.uncompressed()));
+
+                    self.block = block;
 
                     self.stream.replace(stream);
 
@@ -415,6 +442,37 @@ mod tests {
 
         assert_eq!(buf, b"dles");
         assert_eq!(reader.virtual_position(), eof);
+
+        Ok(())
+    }
+
+    #[tokio::test]
+    async fn test_seek_to_end() -> Result<(), Box<dyn std::error::Error>> {
+        #[rustfmt::skip]
+        let data = [
+            // block 0, udata = b"noodles"
+            0x1f, 0x8b, 0x08, 0x04, 0x00, 0x00, 0x00, 0x00, 0x00, 0xff, 0x06, 0x00, 0x42, 0x43,
+            0x02, 0x00, 0x22, 0x00, 0xcb, 0xcb, 0xcf, 0x4f, 0xc9, 0x49, 0x2d, 0x06, 0x00, 0xa1,
+            0x58, 0x2a, 0x80, 0x07, 0x00, 0x00, 0x00,
+            // EOF block
+            0x1f, 0x8b, 0x08, 0x04, 0x00, 0x00, 0x00, 0x00, 0x00, 0xff, 0x06, 0x00, 0x42, 0x43,
+            0x02, 0x00, 0x1b, 0x00, 0x03, 0x00, 0x00, 0x00, 0x00, 0x00, 0x00, 0x00, 0x00, 0x00,
+        ];
+
+        let eof = VirtualPosition::try_from((63, 0))?;
+
+        for position in [eof, VirtualPosition::try_from((35, 0))?] {
+            let mut reader = Reader::new(Cursor::new(&data));
+            reader.seek(position).await?;
+
+            assert_eq!(reader.virtual_position(), eof);
+            assert_eq!(reader.position(), 63);
+
+            let mut buf = Vec::new();
+            reader.read_to_end(&mut buf).await?;
+            assert!(buf.is_empty());
+            assert_eq!(reader.virtual_position(), eof);
+        }
 
         Ok(())
     }
